@@ -1,8 +1,12 @@
 /* C18-H6: real silk_decode_pitch: any lagIndex in int16, any in-codebook contour, fs, nb_subfr: lags clamped to [2 ms,18 ms],
-   codebook reads in bounds. The range assertions do not depend on the table contents (cbmc 6.11 mis-reads 2-D byte tables through
-   flat pointers in some modes, see run.py); the witness execution is replayed natively to confirm the values. */
+   codebook reads in bounds, and every lag equals clamp(min_lag + index + codebook offset). */
 #include "common.h"
 #include "main.h"
+#include "pitch_est_defines.h"
+/* flat 1-D copies of the lag codebooks generated from the current silk/pitch_est_tables.c (props/C18.py gen_flat_pitch) and the real
+   silk_decode_pitch compiled against them: cbmc reads past row 0 of a 2-D table through &T[0][0] as an unconstrained value */
+#include "flat_pitch_tables.h"
+#include "decode_pitch.c"
 void harness(void){
   int fs=vt_range(0,2); fs = fs==0?8:fs==1?12:16; int nb=vt_range(0,1)?4:2;
   int ncont = fs==8? (nb==4?11:3) : (nb==4?34:12);
@@ -12,5 +16,7 @@ void harness(void){
   for(int k=0;k<4;k++){ if(k<nb) VASSERT(pl[k]>=2*fs&&pl[k]<=18*fs,"lag inside the legal range for the sampling rate"); else VASSERT(pl[k]==-1,"only nb_subfr lags written"); }
   /* in-range lag indices are reproduced up to the contour offset */
   if(lag>=0 && lag<16*fs){ int base=2*fs+lag; VASSERT(pl[0]-base>=-30&&pl[0]-base<=30 || pl[0]==2*fs || pl[0]==18*fs,"lag = min_lag + index + contour offset, or clamped"); }
+  { const opus_int8 *cb = fs==8 ? (nb==4? vt_flat_silk_CB_lags_stage2 : vt_flat_silk_CB_lags_stage2_10_ms) : (nb==4? vt_flat_silk_CB_lags_stage3 : vt_flat_silk_CB_lags_stage3_10_ms);
+    for(int k=0;k<4;k++) if(k<nb){ int want=2*fs+lag+cb[k*ncont+ci]; want = want<2*fs?2*fs: want>18*fs?18*fs:want; VASSERT(pl[k]==want,"lag == clamp(min_lag + lagIndex + contour offset) as the encoder computes it"); } }
   VWITNESS(pl[0]==18*fs && lag<16*fs);
 }
